@@ -31,6 +31,10 @@ def run(ctx, drv):
         n = rng.randrange(0, 11 if nobjs < 5 else 8)
         pts = indic.gen_points(rng, n, nobjs, lattice)
         p = mk_problem(nobjs, dirs, constrained=True)
+        if lattice and t % 6 == 0:
+            # objective values as the user's function returned them: Python ints where the value is integral
+            pts = [[int(v) if float(v).is_integer() else v for v in q] for q in pts]
+            ctx.count("sets_with_int_typed_objectives")
         sols = [mk_sol(p, q, 0.0 if rng.random() < 0.9 else 1.0) for q in pts]
         if sols and rng.random() < 0.1:
             sols.append(rng.choice(sols))                 # the same object twice
